@@ -1,13 +1,16 @@
 #!/bin/bash
-# usage: trymutant.sh <patch.diff> <Cxx>...   — apply a seeded change to /repo, run the quick checks, undo it.
-P=$1; shift
-cd /repo || exit 2
-if [ -n "$(git status --porcelain)" ]; then echo "repo dirty"; exit 2; fi
-git apply "$P" || { echo "patch does not apply"; exit 2; }
+# usage: trymutant.sh <patch.diff> <Cxx>...
+# Applies a seeded change to a scratch worktree of /repo HEAD (never to /repo itself), runs the
+# checks against that tree (VERIF_REPO), prints their verdicts, removes the worktree.
+# Evidence written during a trial goes to a scratch evidence dir (VERIF_EVIDENCE), not /verif/evidence.
+P=$(readlink -f "$1"); shift
+WT=$HOME/.cache/verif-scratch/mutwt-$$
+git -C /repo worktree add -q --detach $WT HEAD || exit 2
+trap 'git -C /repo worktree remove --force $WT; rm -rf $WT.ev' EXIT
+git -C $WT apply "$P" || { echo "patch does not apply"; exit 2; }
 for c in "$@"; do
-  out=$(cd /verif && timeout 1500 ./check $c ${TIER:-quick} 2>/dev/null)
+  out=$(cd /verif && VERIF_REPO=$WT VERIF_EVIDENCE=$WT.ev timeout 3000 ./check $c ${TIER:-quick} 2>/dev/null)
   rc=$?
   echo "== $c exit=$rc: $(echo "$out" | grep -c '^VIOLATION') violation line(s)"
-  echo "$out" | grep -A1 '^VIOLATION\|^TOOL-TROUBLE\|^KNOWN' | head -${LINES_SHOWN:-6} | cut -c1-400
+  echo "$out" | grep -A1 '^VIOLATION\|^TOOL-TROUBLE\|^KNOWN' | head -${LINES_SHOWN:-4} | cut -c1-500
 done
-git -C /repo checkout -- . && git -C /repo clean -fdq
